@@ -5,6 +5,8 @@ import (
 	"go/constant"
 	"go/token"
 	"go/types"
+	"regexp/syntax"
+	"sort"
 	"strings"
 
 	"golang.org/x/tools/go/ssa"
@@ -13,9 +15,9 @@ import (
 func init() {
 	register("C03", &propDef{
 		Title: "What is shipped is decided by .terraformignore semantics on archive paths",
-		Rules: []func(*Checker){ruleC03Emit, ruleC03Bundle, ruleC03Prune, ruleC03Arg, ruleC03Meta, ruleC03LastWins, ruleC03Parse, ruleC03Off, ruleC03Shared},
+		Rules: []func(*Checker){ruleC03Emit, ruleC03Bundle, ruleC03Prune, ruleC03Arg, ruleC03Meta, ruleC03Glob, ruleC03LastWins, ruleC03Parse, ruleC03Off, ruleC03Shared},
 		NotDecided: []string{
-			"the meaning of a pattern: correctness of the glob-to-regexp translation for '*', '**', '?', anchoring arithmetic (properties of run-time strings)",
+			"the meaning of a whole pattern: composition of the translated fragments, the '**' forms beyond 'can cross separators', anchoring arithmetic (properties of run-time strings); C03.glob decides only the constant fragments emitted for '?', '*' and ordinary characters",
 			"the content of the built-in default rule table",
 			"re-inclusion below a directory the bundle walk already removed (known finding F6)",
 		},
@@ -356,6 +358,156 @@ func ruleC03Meta(c *Checker) {
 			c.check(reachRaw, R, name, construct, p.Pos(comp.Pos()), "appended raw", "an ordinary / character-class rune no longer reaches the raw append")
 		}
 	}
+}
+
+// C03.glob: what the translator emits for the glob operators, decided on the
+// constant fragments (regexp/syntax on constants; nothing is run).
+func ruleC03Glob(c *Checker) {
+	const R = "C03.glob"
+	c.rule(R, "Partial evaluation of the pattern-to-regexp translator with the accumulated expression replaced by a marker: the fragment appended for '?' is a constant that is exactly one character class excluding the path separator (not optional, not repeated); the fragments appended for '*' are either a star of such a class (single '*': any run of non-separator characters, possibly empty) or, for the '**' forms, expressions that can match the separator. The fragments are parsed with regexp/syntax.", 3)
+	p := c.P
+	var comp *ssa.Function
+	for _, fn := range p.Funcs {
+		if fn.Package() == nil || fn.Package().Pkg.Path() != p.PkgPath("ignorefiles") {
+			continue
+		}
+		callsCompile := len(callsTo(fn, func(o *types.Func) bool { return isFunc(o, "regexp", "Compile") || isFunc(o, "regexp", "MustCompile") })) > 0
+		usesScanner := len(callsTo(fn, func(o *types.Func) bool { return isMethod(o, "text/scanner", "Scanner", "Next") })) > 0
+		if callsCompile && usesScanner {
+			comp = fn
+		}
+	}
+	if comp == nil {
+		c.anchorMissing(R, "the pattern translator (function in ignorefiles using text/scanner and regexp.Compile)")
+		return
+	}
+	name := p.FuncName(comp)
+	isNext := func(v ssa.Value) bool {
+		cl, ok := v.(*ssa.Call)
+		return ok && isMethod(calleeObj(cl), "text/scanner", "Scanner", "Next")
+	}
+	// the accumulator: a string phi fed by concatenations
+	var acc *ssa.Phi
+	eachInstr(comp, func(in ssa.Instruction) {
+		ph, ok := in.(*ssa.Phi)
+		if !ok || !isStringType(ph.Type()) {
+			return
+		}
+		// at a loop header (a predecessor it dominates), and concatenated onto inside the loop
+		hdr := false
+		for _, pr := range ph.Block().Preds {
+			if ph.Block().Dominates(pr) {
+				hdr = true
+			}
+		}
+		if !hdr {
+			return
+		}
+		grows := false
+		if refs := ph.Referrers(); refs != nil {
+			for _, r := range *refs {
+				if bo, ok := r.(*ssa.BinOp); ok && bo.Op == token.ADD && bo.X == ssa.Value(ph) {
+					grows = true
+				}
+			}
+		}
+		if grows {
+			acc = ph
+		}
+	})
+	if acc == nil {
+		c.anchorMissing(R, "the accumulated expression (a string carried round the translator's loop)")
+		return
+	}
+	const marker = "\x00"
+	fragments := func(r rune) ([]string, bool) {
+		ev := p.newEvaluator(func(fn *ssa.Function, v ssa.Value) (absVal, bool) {
+			if fn == comp && isNext(v) {
+				return absConst(constant.MakeInt64(int64(r))), true
+			}
+			if fn == comp && v == ssa.Value(acc) {
+				return absConst(constant.MakeString(marker)), true
+			}
+			return absVal{}, false
+		})
+		res := ev.evalFunc(comp, []absVal{absTop})
+		set := map[string]bool{}
+		for i, pr := range acc.Block().Preds {
+			if !res.Blocks[pr] || !res.Edges[[2]*ssa.BasicBlock{pr, acc.Block()}] {
+				continue
+			}
+			if canon(acc.Edges[i]) == ssa.Value(acc) {
+				continue
+			}
+			if _, isC := acc.Edges[i].(*ssa.Const); isC {
+				continue // the initial value
+			}
+			v := res.Eval(acc.Edges[i])
+			if v.isTop() || len(v.vals) == 0 {
+				return nil, false
+			}
+			for _, k := range v.vals {
+				if k.Kind() != constant.String {
+					return nil, false
+				}
+				s := constant.StringVal(k)
+				if !strings.HasPrefix(s, marker) {
+					return nil, false
+				}
+				set[s[len(marker):]] = true
+			}
+		}
+		var out []string
+		for s := range set {
+			out = append(out, s)
+		}
+		sort.Strings(out)
+		return out, true
+	}
+	sep := '/'
+	oneClass := func(re *syntax.Regexp) bool {
+		return re.Op == syntax.OpCharClass && !canMatchAny(re, sep) && canMatchAny(re, 'a') && canMatchAny(re, '.')
+	}
+	// '?'
+	fr, ok := fragments('?')
+	if !ok {
+		c.fail(R, name, "fragment for '?'", p.Pos(comp.Pos()), "what is appended for '?' is not a constant the partial evaluator can compute: the translation cannot be checked")
+	} else {
+		good := len(fr) == 1
+		why := fmt.Sprintf("appends %q", fr)
+		if good {
+			re, err := syntax.Parse(fr[0], syntax.Perl)
+			good = err == nil && oneClass(re)
+		}
+		c.check(good, R, name, "fragment for '?'", p.Pos(comp.Pos()), why+": exactly one non-separator character", "'?' is not translated to exactly one non-separator character ("+why+"): a rule such as notes?.md then also matches notes.md (or a path with a separator)")
+	}
+	// '*'
+	fr, ok = fragments('*')
+	if !ok {
+		c.fail(R, name, "fragments for '*'", p.Pos(comp.Pos()), "what is appended for '*' is not a constant the partial evaluator can compute: the translation cannot be checked")
+	} else {
+		single := 0
+		bad := ""
+		for _, f := range fr {
+			re, err := syntax.Parse(f, syntax.Perl)
+			if err != nil {
+				bad = fmt.Sprintf("%q does not parse", f)
+				continue
+			}
+			switch {
+			case re.Op == syntax.OpStar && len(re.Sub) == 1 && oneClass(re.Sub[0]):
+				single++
+			case canMatchAny(re, sep):
+				// a '**' form
+			default:
+				bad = fmt.Sprintf("%q is neither a run of non-separator characters nor a '**' form that can cross directories", f)
+			}
+		}
+		c.check(bad == "" && single == 1, R, name, "fragments for '*'", p.Pos(comp.Pos()), fmt.Sprintf("appends %q: one single-star form (possibly empty run of non-separator characters), the others cross separators", fr), fmt.Sprintf("'*' is not translated to 'any run of non-separator characters, possibly empty' (fragments %q; %s)", fr, bad))
+	}
+	// an ordinary character is appended as itself
+	fr, ok = fragments('a')
+	c.check(ok && len(fr) == 1 && fr[0] == "a", R, name, "fragment for an ordinary character", p.Pos(comp.Pos()), "appended as itself", fmt.Sprintf("an ordinary character is not appended as itself (%q)", fr))
 }
 
 func ruleC03LastWins(c *Checker) {
